@@ -72,8 +72,8 @@ func vsNewGen(t *simkit.Tape, cfg map[string]any) *vsGen {
 	for i := range g.wKind {
 		g.wKind[i] = []int{2, 1, 4, 0}[t.Intn(4)]
 	}
-	// a few kinds are needed for anything else to happen
-	for _, i := range []int{2, 8} {
+	// node upserts and the task workflow kinds are needed for anything deep to happen
+	for _, i := range []int{2, 8, 9, 10, 11, 12, 13, 14} {
 		if g.wKind[i] == 0 {
 			g.wKind[i] = 2
 		}
@@ -260,13 +260,21 @@ func (g *vsGen) next(cur state.ClusterState) (command.Command, vsMeta) {
 			w[i] = 1
 		}
 	}
+	total := 0
+	for _, x := range w {
+		total += x
+	}
 	if hasMove {
-		boost(10)
-		boost(10)
-		boost(11)
+		w[10] += total / 2 // about a third of the picks drive the move forward
 	} else {
 		damp(10)
-		damp(11)
+	}
+	damp(11)
+	for _, t := range cur.Tasks {
+		if t.Kind == state.TaskKindSlotReplicaMove && t.Step == state.TaskStepCommitAssignment {
+			w[11] += total / 2
+			break
+		}
 	}
 	if hasTask {
 		boost(12)
@@ -303,7 +311,12 @@ func (g *vsGen) gen(kindIdx int, cur state.ClusterState) (command.Command, vsMet
 		// a repeated command makes no promise about staleness any more
 		return g.record(g.log[k], vsMeta{kind: "repeat(" + m.kind + ")", variant: "repeat", note: fmt.Sprintf("of #%d", k)})
 	}
-	variant := g.t.Weighted(g.wVar)
+	wv := g.wVar
+	if kind == command.KindAdvanceSlotReplicaMovePhase || kind == command.KindCommitSlotReplicaMove {
+		// the move workflow needs four or five valid steps in a row to finish
+		wv = []int{3 * g.wVar[0], g.wVar[1], g.wVar[2]}
+	}
+	variant := g.t.Weighted(wv)
 	cmd := command.Command{Kind: kind, IssuedAt: g.issuedAt()}
 	meta := vsMeta{kind: string(kind), variant: vsVariantNames[variant]}
 	switch kind {
